@@ -159,7 +159,9 @@ impl fmt::Display for CosetTable {
 fn expanded_relator_set(relators: &Vec<FreeWord>) -> BTreeSet<FreeWord> {
     let mut rels = BTreeSet::new();
     for rel in relators {
-        rels.extend(relator_permutations(&rel));
+        if rel.len() > 0 {
+            rels.extend(relator_permutations(&rel));
+        }
     }
     rels
 }
@@ -267,7 +269,7 @@ pub fn coset_table(
                             pending.extend(scan_and_connect(&mut table, w, c));
                         }
                     }
-                    for w in subgroup_gens {
+                    for w in subgroup_gens.iter().filter(|w| w.len() > 0) {
                         let c = table.canon(0);
                         pending.extend(scan_and_connect(&mut table, w, c));
                     }
